@@ -203,9 +203,9 @@ def data_indices(F, res):
 
 
 def locals_parse(F, res):
-    nop = Policy(effects=lambda p: not p.startswith('std::') and not p.startswith('log::') and not p.startswith('anyhow::'),
-                 inline=lambda p: False)
+    from heval import local_policy
     c = [p for p in F.hir if p.endswith('::parse_local_functions')]
+    nop = local_policy(F, c[0], public_events=True)
     ws = Evaluator(F, nop).run_fn(c[0], [sym('self'), sym('functions'), sym('indices'), sym('on_instr_pos')])
     n_ok = 0
     bad = None
